@@ -26,13 +26,33 @@ def run(rep: Report, repo: Repo):
     methods, handlers, n = grammar.check_agreement(rep, 'C14.grammar', mod, G, 'SdfTransformer', consumed_as_tree=('delay',))
     rep.floor('SDF callbacks analysed', n, 5)
     grammar_facts(rep, mod, G, gnode)
-    accumulation(rep, mod, methods)
-    triples(rep, mod, methods)
+    rec = False
+    try:
+        rec = records_evaluated(rep, repo, mod)
+    except ModelError as e:
+        rep.note(f'C14.records: SdfTransformer is outside the evaluated subset ({e}); the structural rules C14.accumulate / C14.triple decide')
     evaluated = annotation_evaluated(rep, repo, mod)
+    if not rec:
+        accumulation(rep, mod, methods)
+    if not (rec and evaluated):
+        triples(rep, mod, methods)
     if not evaluated:
         polarity(rep, mod)     # structural forms of what the evaluation decides (used when the code is outside the evaluator subset)
         pins(rep, mod)
-    shape(rep, mod)
+        shape(rep, mod)
+    else:
+        parse_uses_transformer(rep, mod)
+
+
+def parse_uses_transformer(rep, mod):
+    p = mod.func('parse')
+    calls = [c for c in find_all(p, ast.Call) if call_name(c) == 'Lark']
+    ok = len(calls) == 1 and any(k.arg == 'transformer' and isinstance(k.value, ast.Call) and call_name(k.value) == 'SdfTransformer' for k in calls[0].keywords) \
+        and calls[0].args and cz(calls[0].args[0]) == 'GRAMMAR'
+    rep.rule('C14.accumulate', 'sdf.parse runs the grammar constant with an SdfTransformer')
+    rep.ob('C14.accumulate', 'parse uses GRAMMAR with SdfTransformer', ok)
+    if not ok:
+        rep.violate('C14.accumulate', mod, p, 'parse', 'sdf.parse must run Lark(GRAMMAR, parser="lalr", transformer=SdfTransformer())', node=p)
 
 
 def grammar_facts(rep, mod, G, gnode):
@@ -132,6 +152,99 @@ def accumulation(rep, mod, methods):
     rep.ob('C14.accumulate', 'parse uses GRAMMAR with SdfTransformer', ok)
     if not ok:
         rep.violate('C14.accumulate', mod, p, 'parse', 'sdf.parse must run Lark(GRAMMAR, parser="lalr", transformer=SdfTransformer())', node=p)
+
+
+def records_evaluated(rep, repo, mod):
+    """C14.records - SdfTransformer evaluated (Engine M) bottom-up on the parse tree of a small delay file: repeated CELL blocks of one instance, several
+    top-level INTERCONNECT blocks, empty triples, single value lists, several DELAY blocks per cell, a cell without INSTANCE id. The records the
+    DelayFile holds must be the entries of the file, per instance, in file order. Returns False when a callback is outside the evaluator subset."""
+    import collections
+    from kvstatic import minieval
+    NS, Tok = minieval.NS, minieval.TokenStr
+    rep.rule('C14.records', 'SdfTransformer evaluated on a small delay file: every IOPATH of every CELL block is kept under its instance, every INTERCONNECT of every top-level block under '
+                            'the file, in file order, as (from, to, rise triple, fall triple); a single value list counts for both polarities; an empty triple stays empty; fields lose their separator')
+    cls = mod.cls('SdfTransformer')
+    funcs = {st.name: st for st in cls.body if isinstance(st, ast.FunctionDef)}
+    genv = {}
+    for st in mod.tree.body:
+        if isinstance(st, ast.ClassDef) and st.name != cls.name:
+            genv[st.name] = minieval.make_class(st, genv)
+        elif isinstance(st, ast.Assign) and len(st.targets) == 1 and isinstance(st.targets[0], ast.Name) and isinstance(st.value, ast.Call) \
+                and call_name(st.value) == 'namedtuple' and len(st.value.args) == 2:
+            try:
+                nt = collections.namedtuple(st.targets[0].id, ast.literal_eval(st.value.args[1]))
+            except ValueError:
+                raise ModelError('namedtuple with non-constant fields')
+            nt._kv_class = True
+            genv[st.targets[0].id] = nt
+    minieval.module_functions(mod.tree, genv)
+
+    def T(rule, *ch):
+        return NS(data=rule, children=list(ch), _tree=True)
+
+    def triple(*v):
+        if not v:
+            return T('triple')
+        return T('triple', Tok(f'{v[0]}:'), Tok(f'{v[1]}:'), Tok(f'{v[2]})'))
+
+    def iop(a, b, *tr):
+        return T('iopath', Tok(a, 'ID_OR_EDGE'), Tok(b, 'ID_OR_EDGE'), *tr)
+
+    def ic(a, b, *tr):
+        return T('interconnect', Tok(a, 'ID'), Tok(b, 'ID'), *tr)
+    tree = T('start', Tok('top', 'NAME'),
+             T('cell', T('delay', ic('u1/Z', 'u2/A', triple('0.1', '0.2', '0.3'), triple('0.4', '0.5', '0.6')))),
+             T('cell', Tok('u1', 'ID'), T('delay', iop('A', 'Z', triple('1.0', '1.5', '2.0'), triple('', '', '')), iop('(posedge B)', 'Z', triple('3', '3', '3'), triple()))),
+             T('cell', Tok('u2', 'ID'), T('delay', iop('A', 'Z', triple('4', '5', '6'))), T('delay', iop('B', 'Z', triple(), triple('7', '8', '9')))),
+             T('cell', Tok('u1', 'ID'), T('delay', iop('(negedge B)', 'Z', triple('-1', '0', '1'), triple('2.5', '2.5', '2.5')))),
+             T('cell', T('delay', ic('u2/Z', 'u3/B', triple('0.7', '0.8', '0.9')), ic('\\u1/Z', 'u3/A', triple(), triple()))),
+             T('cell', Tok('u3', 'ID')))
+    want_cells = {
+        'u1': [('A', 'Z', [1.0, 1.5, 2.0], [0.0, 0.0, 0.0]), ('(posedge B)', 'Z', [3.0, 3.0, 3.0], []), ('(negedge B)', 'Z', [-1.0, 0.0, 1.0], [2.5, 2.5, 2.5])],
+        'u2': [('A', 'Z', [4.0, 5.0, 6.0], [4.0, 5.0, 6.0]), ('B', 'Z', [], [7.0, 8.0, 9.0])],
+        'u3': []}
+    want_ic = [('u1/Z', 'u2/A', [0.1, 0.2, 0.3], [0.4, 0.5, 0.6]), ('u2/Z', 'u3/B', [0.7, 0.8, 0.9], [0.7, 0.8, 0.9]), ('\\u1/Z', 'u3/A', [], [])]
+
+    def transform(t):
+        if not getattr(t, '_tree', False):
+            return t
+        ch = [transform(c) for c in t.children]
+        fd = funcs.get(t.data)
+        if fd is None:
+            return NS(data=t.data, children=ch)
+        decos = {d.id if isinstance(d, ast.Name) else getattr(d, 'attr', None) for d in fd.decorator_list}
+        if decos - {'staticmethod'}:
+            raise ModelError(f'callback {t.data} has an unmodelled decorator')
+        me = NS()
+        minieval.bind_class(me, cls, genv, skip=('__init__',))
+        return minieval.call_function(fd, ([] if 'staticmethod' in decos else [me]) + [ch], genv)
+    why = None
+    try:
+        df = transform(tree)
+        cells = getattr(df, 'cells', None)
+        inter = getattr(df, '_interconnects', None)
+        if not isinstance(cells, dict):
+            why = f'the transformer returns {type(df).__name__} without a cells table'
+        else:
+            got_cells = {str(k): [tuple(minieval.freeze(list(x))) for x in v] for k, v in cells.items()}
+            exp_cells = {k: [tuple(minieval.freeze(list(x))) for x in v] for k, v in want_cells.items() if v or k in got_cells}
+            if got_cells != exp_cells:
+                why = f'the per-instance records are {got_cells}; the file holds {exp_cells}'
+            else:
+                got_ic = [tuple(minieval.freeze(list(x))) for x in (inter or [])]
+                exp_ic = [tuple(minieval.freeze(list(x))) for x in want_ic]
+                if got_ic != exp_ic:
+                    why = f'the top-level INTERCONNECT records are {got_ic}; the file holds {exp_ic}'
+    except ModelError:
+        raise
+    except (IndexError, KeyError, TypeError, AttributeError, ValueError, RuntimeError, AssertionError) as e:
+        why = f'raises {type(e).__name__}: {e}'
+    ok = why is None
+    rep.ob('C14.records', 'records of the stand-in delay file (3 instances, 6 CELL blocks, 2 top-level blocks)', ok, evals=9)
+    if not ok:
+        rep.violate('C14.records', mod, cls.name, 'SdfTransformer', f'SdfTransformer / DelayFile: {why} (file: u1 has two CELL blocks, u2 two DELAY blocks, two CELL blocks without INSTANCE id hold '
+                    f'INTERCONNECTs, `()` is an empty triple, `(::)` three empty fields, one value list counts for rise and fall)', node=funcs.get('start'))
+    return True
 
 
 def triples(rep, mod, methods):
@@ -265,18 +378,26 @@ def annotation_evaluated(rep, repo, mod):
     instances, branch forks present / absent / shared."""
     from kvstatic import minieval
     NS = minieval.NS
+    rep.rule('C14.shape', 'delay array: zeros (lines, 2, 2, 3) during construction, dataset axis moved first; same in both methods (evaluated)')
     rep.rule('C14.landing', 'iopaths / interconnects store every delay entry of the file at the line of the named pin (branch-fork input for interconnects), '
                             'at the qualified input polarity, with empty triples as 0 - evaluated on stand-in circuits; nothing else is written')
 
     def L(tag, **kw):
         return NS(tag=tag, **kw)
 
+    shapes = []
+
     def np_ns(store):
         def zeros(shape):
             r = minieval.Rec()
             store.append(r)
+            shapes.append(('zeros', minieval.freeze(shape)))
             return r
-        return NS(zeros=minieval.stub(zeros), moveaxis=minieval.stub(lambda a, s_, d: a))
+
+        def moveaxis(a, s_, d):
+            shapes.append(('moveaxis', a is (store[0] if store else None), s_, d))
+            return ('moved', a)
+        return NS(zeros=minieval.stub(zeros), moveaxis=minieval.stub(moveaxis))
     PIN = {('AND2', 'A'): 0, ('AND2', 'B'): 1, ('AND2', 'Z'): 0, ('DFF', 'D'): 0, ('DFF', 'Q'): 0, ('DFF', 'QN'): 1,
            ('MUX', 'S'): 0, ('MUX', 'A'): 1, ('MUX', 'B'): 2, ('MUX', 'Z'): 0}      # pin A sits at different positions in AND2 and MUX
 
@@ -319,9 +440,14 @@ def annotation_evaluated(rep, repo, mod):
     try:
         store = []
         me = NS(cells=sdf_cells, _interconnects=[])
-        minieval.call_function(f, [me, circuit, tlib], {'np': np_ns(store), 'log': log})
+        del shapes[:]
+        ret = minieval.call_function(f, [me, circuit, tlib], {'np': np_ns(store), 'log': log})
         got = dict(store[0]) if store else None
         ok = got == want
+        shape_ok = shapes[:1] == [('zeros', (len(circuit.lines), 2, 2, 3))] and shapes[-1:] == [('moveaxis', True, -1, 0)] and isinstance(ret, tuple) and ret[:1] == ('moved',)
+        rep.ob('C14.shape', 'iopaths: array (lines, 2, 2, 3) during construction, dataset axis moved to the front of the result', shape_ok)
+        if not shape_ok:
+            rep.violate('C14.shape', mod, f, 'iopaths', f'DelayFile.iopaths must build zeros((len(circuit.lines), 2, 2, 3)) and return np.moveaxis(delays, -1, 0); array calls seen: {shapes}', node=f)
         n_ok += 1
         rep.ob('C14.landing', 'iopaths on the stand-in circuit', ok, evals=len(want))
         if not ok:
@@ -362,9 +488,14 @@ def annotation_evaluated(rep, repo, mod):
     try:
         store = []
         me = NS(cells={}, _interconnects=inter)
-        minieval.call_function(g, [me, circuit2, tlib], {'np': np_ns(store), 'log': log})
+        del shapes[:]
+        ret = minieval.call_function(g, [me, circuit2, tlib], {'np': np_ns(store), 'log': log})
         got = dict(store[0]) if store else None
         ok = got == want2
+        shape_ok = shapes[:1] == [('zeros', (len(circuit2.lines), 2, 2, 3))] and shapes[-1:] == [('moveaxis', True, -1, 0)] and isinstance(ret, tuple) and ret[:1] == ('moved',)
+        rep.ob('C14.shape', 'interconnects: array (lines, 2, 2, 3) during construction, dataset axis moved to the front of the result', shape_ok)
+        if not shape_ok:
+            rep.violate('C14.shape', mod, g, 'interconnects', f'DelayFile.interconnects must build zeros((len(circuit.lines), 2, 2, 3)) and return np.moveaxis(delays, -1, 0); array calls seen: {shapes}', node=g)
         rep.ob('C14.landing', 'interconnects on the stand-in circuit', ok, evals=len(inter))
         if not ok:
             rep.violate('C14.landing', mod, g, 'interconnects', f'DelayFile.interconnects: on the stand-in circuit (a stem fork with two branch forks, a fan-out-free net, a fan-out without branch '
